@@ -281,7 +281,7 @@ const preamble = `(set-option :produce-models true)
 
 // xor with zero (only in queries whose script mentions bxor: extra quantified
 // axioms change how the incremental solver treats unrelated nonlinear goals)
-const bxorAxioms = "(assert (forall ((x Int)) (! (= (bxor 0 x) x) :pattern ((bxor 0 x)))))\n(assert (forall ((x Int)) (! (= (bxor x 0) x) :pattern ((bxor x 0)))))\n"
+const bxorAxioms = "(assert (forall ((x Int)) (! (= (bxor 0 x) x) :pattern ((bxor 0 x)))))\n(assert (forall ((x Int)) (! (= (bxor x 0) x) :pattern ((bxor x 0)))))\n(assert (forall ((x Int) (y Int)) (! (= (bxor x y) (bxor y x)) :pattern ((bxor x y)))))\n"
 
 const strrowAxiom ="(assert (forall ((s Str) (i Int)) (! (= (select (strrow s) i) (sat s i)) :pattern ((select (strrow s) i)))))\n"
 
